@@ -515,8 +515,9 @@ bool XMLReader::begin(tag_t tag, bool skipEmpty)
 bool UTAP::XMLReader::end(UTAP::tag_t tag)
 {
     int node_type = getNodeType();
-    // Ignore whitespace
-    while (node_type == XML_READER_TYPE_WHITESPACE || node_type == XML_READER_TYPE_SIGNIFICANT_WHITESPACE) {
+    // Ignore whitespace and comments
+    while (node_type == XML_READER_TYPE_WHITESPACE || node_type == XML_READER_TYPE_SIGNIFICANT_WHITESPACE ||
+           node_type == XML_READER_TYPE_COMMENT) {
         read();
         node_type = getNodeType();
     }
